@@ -111,6 +111,12 @@ def gen_cases(rng, tier, search):
     # --- shell request sequences
     for _ in range(n_rand // 2):
         cases.append(Case({"kind": "shell", "reqs": gen_reqs(rng)}, None, tags=("shell",)))
+    # --- several tasks sending on ONE socket whose writer suspends in drain(): each message must stay contiguous
+    for _ in range(20 if tier == "quick" else 200):
+        senders = []
+        for _s in range(rng.randrange(2, 5)):
+            senders.append([hx(rand_bytes(rng, rng.choice([0, 1, 3, 40, 300]))) for _ in range(rng.randrange(1, 5))])
+        cases.append(Case({"kind": "concurrent-send", "senders": senders}, None, tags=("concurrent-send",)))
     # --- interleaved connections: a cell on connection A is still awaiting while connection B is served
     for _ in range(14 if tier == "quick" else 150):
         nb = rng.randrange(1, 4)
@@ -188,6 +194,21 @@ class FakeWriter:
 
     def close(self):
         self.closed = True
+
+
+class YieldingWriter(FakeWriter):
+    """a transport under back-pressure: drain() lets other tasks run"""
+    async def drain(self):
+        for _ in range(3):
+            await asyncio.sleep(0)
+
+
+async def impl_concurrent_send(senders):
+    from custom_components.pyscript.jupyter_kernel import ZmqSocket
+    w = YieldingWriter()
+    sock = ZmqSocket(None, w, "PUB")
+    await asyncio.gather(*[sock.send_multipart(parts) for parts in senders])
+    return bytes(w.buf)
 
 
 async def feed_chunks(reader, chunks, eof=True):
@@ -599,6 +620,17 @@ async def _run_one(c):
                                           for o in r["outs"]]} for r in results]
         c.line = [shell_line(p["reqs"])]
         c.spec = None
+    elif k == "concurrent-send":
+        sent = [[unhx(x) for x in parts] for parts in p["senders"]]
+        try:
+            wire = await impl_concurrent_send(sent)
+            got = split_msgs(wire)
+            c.payload["_received"] = [[hx(x) for x in m] for m in got]
+        except Exception as e:  # pylint: disable=broad-except
+            c.payload["_received"] = f"raise:{type(e).__name__}"
+        c.impl = None
+        c.line = []
+        c.spec = None
     elif k == "interleave":
         reqs, outs = await impl_interleave(p)
         c.payload["_reqs"] = reqs
@@ -642,6 +674,13 @@ def verdict(c):
         return shell_verdict(c)
     if k == "interleave":
         return interleave_verdict(c)
+    if k == "concurrent-send":
+        got = c.payload.get("_received")
+        want = sorted(c.payload["senders"])
+        if not isinstance(got, list) or sorted(got) != want:
+            return (f"{len(want)} tasks sent one message each on one socket (drain suspends): the stream decodes to "
+                    f"{str(got)[:120]}, expected the {len(want)} messages intact")
+        return None
     return None
 
 
